@@ -69,6 +69,9 @@ def rule_menu():
         ("a->All(x,y,z,b)", C('Imply', None, [L("a"), C('All', None, it("x", "y", "z", "b"))])),
         # several defaults, not in id order (the first one is the default; the list itself must survive serialisation as given)
         ("ccXor(a,b,c|b,a)", ccXor("abc", ("b", "a"))), ("ccAny(a,b,c|c,a)", ccAny("abc", ("c", "a"))), ("ccXor(x,y|y,x)", ccXor("xy", ("y", "x"))),
+        # the same defaulted consequence once more at the END of the menu: paired with the plain x->Any(a,b) above it, the plain occurrence
+        # of the shared inner node Any(a,b) now comes FIRST in rule order (the tagged one first is covered by the pair further up)
+        ("x->ccXor(a,b,c|c) late", C('Imply', None, [L("x"), ccXor("abc", "c")])),
         ("Any(P,Q)", C('Any', None, [P_PACK, Q_PACK])),
     ]
     return m
